@@ -678,7 +678,9 @@ class Interp:
             for field in ("env", "heap"):
                 da, db, dj = getattr(a, field), getattr(b, field), getattr(j, field)
                 for k in dj:
-                    va, vb = da.get(k, UNBOUND), db.get(k, UNBOUND)
+                    # an attribute of self that one branch does not store keeps its value from before the call
+                    missing = attr(P("self"), k) if field == "heap" else UNBOUND
+                    va, vb = da.get(k, missing), db.get(k, missing)
                     if va != vb and va != UNBOUND and vb != UNBOUND and not _has_unbound(va) and not _has_unbound(vb):
                         dj[k] = T("ifexp", t, va, vb)
             return j
@@ -1589,7 +1591,13 @@ def bind_terms(fdef, args, kwargs, skip_self=True):
         elif fdef.args.vararg is None:
             return None
         i += 1
+    items = []
     for k, v in kwargs.items():
+        if k == "**" and isinstance(v, T) and v.op == "dict" and all(is_const(kk) and isinstance(cval(kk), str) for kk, _ in v.a[0]):
+            items.extend((cval(kk), vv) for kk, vv in v.a[0])  # ``**{"name": x, ...}`` with literal keys
+        else:
+            items.append((k, v))
+    for k, v in items:
         if k == "**":
             out["**"] = v
         elif k in names or k in kwonly:
